@@ -3320,7 +3320,14 @@ class FuncProcessLines(ValueFunc):
             def cb(line):
                 return call_function(callback, [ValueString(line)], env, pos)
 
-            return ValueInt(inp.process(cb))
+            try:
+                return ValueInt(inp.process(cb))
+            except (OSError, ValueError):
+                # a closed stream: what readln and read report (an error
+                # of the callback is a runtime error and passes through)
+                raise CklRuntimeError(
+                    ValueString("ERROR"), "Cannot read from input", pos
+                )
         elif inparg.isList():
             lst = inparg.asList().value
             for element in lst:
